@@ -45,7 +45,9 @@ fn for_x(ret: &Value, x: usize) -> Vec<Value> {
         .unwrap_or_default()
 }
 
-fn run_case(id: u64, c: &Case, seed: u64, f: &mut impl Write) -> (u64, bool, bool) {
+use verif_harness::srng::Spiked;
+
+fn run_case(id: u64, c: &Case, seed: u64, spiked: bool, f: &mut impl Write) -> (u64, bool, bool) {
     let conf_a = MConf {
         M: c.machines.clone(),
         fwPad: (0, 1),
@@ -65,8 +67,8 @@ fn run_case(id: u64, c: &Case, seed: u64, f: &mut impl Write) -> (u64, bool, boo
     )
     .unwrap();
     let (mut a, mut b) = match (
-        FwRun::new(&conf_a, Xoshiro256StarStar::seed_from_u64(seed)),
-        FwRun::new(&conf_b, Xoshiro256StarStar::seed_from_u64(seed ^ 0xabcdef)),
+        FwRun::new(&conf_a, Spiked { inner: Xoshiro256StarStar::seed_from_u64(seed), lcg: seed ^ 0x1234, on: spiked }),
+        FwRun::new(&conf_b, Spiked { inner: Xoshiro256StarStar::seed_from_u64(seed ^ 0xabcdef), lcg: seed ^ 0x9876_5432, on: spiked }),
     ) {
         (Ok(a), Ok(b)) => (a, b),
         _ => {
@@ -155,7 +157,7 @@ fn main() {
                 xa: pos,
                 calls: cs,
             };
-            let (n, p, d) = run_case(i as u64, &c, seed.wrapping_add(i as u64), &mut f);
+            let (n, p, d) = run_case(i as u64, &c, seed.wrapping_add(i as u64), i % 2 == 1, &mut f);
             cases += 1;
             calls += n;
             panics += p as u64;
@@ -168,7 +170,10 @@ fn main() {
         for i in 0..n {
             let x = gen_det_machine(&mut g);
             let others = g.gen_range(1..=3usize);
-            let mut machines: Vec<MMachine> = (0..others).map(|_| gen_machine(&mut g, true)).collect();
+            // every other case runs on the spiked stream; its neighbours use no real
+            // distribution families (a sampler of rand_distr fed with extreme words is C13's subject)
+            let spiked = i % 2 == 1;
+            let mut machines: Vec<MMachine> = (0..others).map(|_| gen_machine(&mut g, !spiked)).collect();
             let xa = g.gen_range(0..=others);
             machines.insert(xa, x);
             if machines.iter().any(|m| m.to_machine().is_err()) {
@@ -180,7 +185,7 @@ fn main() {
                 xa,
                 calls: hist.into_iter().map(|c| (c.t, c.events)).collect(),
             };
-            let (n, p, d) = run_case(i, &c, seed.wrapping_mul(7919).wrapping_add(i), &mut f);
+            let (n, p, d) = run_case(i, &c, seed.wrapping_mul(7919).wrapping_add(i), spiked, &mut f);
             cases += 1;
             calls += n;
             panics += p as u64;
